@@ -30,4 +30,10 @@ def knownSuspects : List String := ["irismod.coinswap.Params.fee"]
 
 def suspectsWithinKnown : Bool := suspectFields.all (knownSuspects.contains ·)
 
+/-- the grpc hand-off table of either family serves exactly the methods the descriptor declares
+(a service without a table in one family has an empty list there and fails) -/
+def svcOk (f : SvcFact) : Bool := f.gogo == f.desc && f.pulsar == f.desc && !f.desc.isEmpty
+
+def grpcDescsOk : Bool := svcFacts.all svcOk
+
 end Irismod.Spec.C20
